@@ -251,7 +251,7 @@ theorem commit_after_cancel (s : State) (st : Stmt) (c : CancelPoint) :
 -/
 def w1 : Table := { header := ["id"], rows := [[nullCell]] }
 def wState : State := { tables := [("t1", w1), ("t2", w1)], marks := [], committed := [("t1", w1), ("t2", w1)] }
-def wStmt : Stmt := .deleteMulti ["t1", "t2"] ["t1", "t2"] (fun _ => .ok .T)
+def wStmt : Stmt := .deleteMulti ["t1", "t2"] ["t1", "t2"] .cross (fun _ => .ok .T)
 
 /-- witness for the old loop: `DELETE t1, t2 FROM t1, t2` cancelled after the first table was stored -/
 theorem old_publication_loop_cancel_counterexample :
@@ -293,19 +293,19 @@ theorem deleteTargets_length (ts : Tables) (froms : List String) (view : List JR
 /-- the old loop was harmless exactly for statements other than a DELETE with two or more targets, and for
     those when the cancellation arrived before the first table was stored -/
 theorem old_publication_loop_cancel_partial (s : State) (st : Stmt) (k : Nat) (e : Err)
-    (hsafe : ∀ targets froms cond, st = .deleteMulti targets froms cond → k = 0 ∨ targets.length ≤ 1)
+    (hsafe : ∀ targets froms join cond, st = .deleteMulti targets froms join cond → k = 0 ∨ targets.length ≤ 1)
     (h : (stmtCancelOldLoop s st k).2 = .error e) : (stmtCancelOldLoop s st k).1 = s := by
   cases st with
-  | deleteMulti targets froms cond =>
-    have hk := hsafe targets froms cond rfl
+  | deleteMulti targets froms join cond =>
+    have hk := hsafe targets froms join cond rfl
     simp only [stmtCancelOldLoop] at h ⊢
-    cases hb : body s.tables (.deleteMulti targets froms cond) with
+    cases hb : body s.tables (.deleteMulti targets froms join cond) with
     | error e' => rfl
     | ok outs =>
       simp only [hb] at h ⊢
       have hlen : outs.length = targets.length := by
         simp only [body] at hb
-        cases hj : joinedView s.tables froms cond with
+        cases hj : joinedView s.tables froms join cond with
         | error e' => simp [hj] at hb
         | ok view =>
           simp only [hj] at hb
@@ -325,7 +325,7 @@ theorem old_publication_loop_cancel_partial (s : State) (st : Stmt) (k : Nat) (e
   | replace _ _ _ _ _ => exact failed_stmt_id s _ e h
   | update _ _ _ => exact failed_stmt_id s _ e h
   | delete _ _ => exact failed_stmt_id s _ e h
-  | updateMulti _ _ _ _ => exact failed_stmt_id s _ e h
+  | updateMulti _ _ _ _ _ => exact failed_stmt_id s _ e h
   | addCols _ _ _ => exact failed_stmt_id s _ e h
   | dropCols _ _ => exact failed_stmt_id s _ e h
   | rename _ _ _ => exact failed_stmt_id s _ e h
@@ -591,10 +591,10 @@ theorem load_failure_keeps_uncommitted_changes (s : State) (pre : Stmt) (st : St
   failed_stmt_id _ st e h
 
 /-- e.g. a multi-table statement whose FROM names a table that does not exist fails in `getCopies`, whatever came before -/
-theorem multi_table_missing_from_fails (ts : Tables) (targets froms : List String) (cond : List Row → Except Err Tern)
+theorem multi_table_missing_from_fails (ts : Tables) (targets froms : List String) (join : Join) (cond : List Row → Except Err Tern)
     (sets : List (String × SetItem (List Row))) (n : String) (hn : n ∈ froms) (hmiss : lookupT ts n = none) :
-    body ts (.updateMulti targets froms cond sets) = .error .noTable ∧
-    body ts (.deleteMulti targets froms cond) = .error .noTable := by
+    body ts (.updateMulti targets froms join cond sets) = .error .noTable ∧
+    body ts (.deleteMulti targets froms join cond) = .error .noTable := by
   have hc : getCopies ts froms = .error .noTable := by
     induction froms with
     | nil => cases hn
